@@ -78,6 +78,8 @@ MUTANTS = [
     ("aldy/sam.py", '                    muts[start + i, "-"].append((bin_quality(mq), bin_quality(prev_q)))',
      '                    muts[start + i // 2, "-"].append((bin_quality(mq), bin_quality(prev_q)))',
      "aldy.sam.Sample._parse_read@deletion-op", "unique-appender"),
+    ("aldy/sam.py", "            elif op == 4:  # Soft-clip\n                s_start += size", "            elif op == 4:  # Soft-clip\n                s_start += size\n                start += size",
+     "aldy.sam.Sample._parse_read@soft-clip-op", "post/cursors"),
 ]
 SLOW = [
     ("aldy/major.py", 'name=f"CSAT_{cnf}"', 'name=f"CSAT_{cnf}") if False else model.addConstr(expr <= cnt + 1, name=f"CSAT_{cnf}"',
